@@ -441,7 +441,9 @@ def gen_wellformed(rnd, shape, idx=0):
                         hs.append(rnd.choice(ev_level['guards']))  # a guard also listed as an unless-condition
                     else:
                         hook_ctr[0] += 1
-                        hs.append('%s%d_%s%d' % ({'guards': 'g', 'unless': 'u', 'before': 'b', 'after': 'a', 'around': 'w'}[k], ei, level, hook_ctr[0]))
+                        # some hook identifiers are not snake_case (`g0_e1OK`): errors must report them as declared
+                        hs.append('%s%d_%s%d%s' % ({'guards': 'g', 'unless': 'u', 'before': 'b', 'after': 'a', 'around': 'w'}[k], ei, level, hook_ctr[0],
+                                                   rnd.choice(['', '', '', 'OK', 'GPSLock'])))
                 out.append(('list', k, hs))
                 if level == 'e':
                     ev_level[k] = list(hs)
@@ -481,4 +483,6 @@ def gen_wellformed(rnd, shape, idx=0):
     if rnd.random() < 0.15:
         d.insert(rnd.randint(0, len(d)), ('legacy', rnd.choice(['state', 'action', 'callbacks'])))
     d.append(('events', events))
+    if rnd.random() < 0.4:
+        rnd.shuffle(d)          # the top-level keys may come in any order (`states` before `initial`, `events` first, ...)
     return d
